@@ -9,6 +9,7 @@ import (
 	"io"
 	"os"
 	"path/filepath"
+	"strings"
 	"sync"
 	"sync/atomic"
 	"testing"
@@ -411,6 +412,7 @@ type c06Gated struct {
 	Input      vfB         `json:"input"`
 	HookParent string      `json:"hook_parent"` // "" = root
 	HookInRead bool        `json:"hook_in_read"`
+	InitLimit  uint32      `json:"init_limit"` // limit in force when the detection starts
 	Writes     []c06GWrite `json:"writes"`
 }
 
@@ -480,7 +482,7 @@ func c06GatedCheck(c c06Gated) vfResult {
 		}
 	}
 	vfTreeRestore()
-	SetLimit(defaultLimit)
+	SetLimit(c.InitLimit)
 	regHook()
 	atomic.StoreInt32(&armed, 1)
 	var wg sync.WaitGroup
@@ -515,7 +517,7 @@ func c06GatedCheck(c c06Gated) vfResult {
 	}
 	res := vfChainStr(got)
 	// admissible: every prefix of the Extend sequence x every limit in force during the call
-	limits := []uint32{defaultLimit}
+	limits := []uint32{c.InitLimit}
 	for _, w := range c.Writes {
 		if w.Op == "setlimit" {
 			limits = append(limits, w.Limit)
@@ -566,7 +568,7 @@ func c06GatedGen(t *rapid.T) c06Gated {
 	n := rapid.IntRange(1, 4).Draw(t, "nw")
 	tag := "VF"
 	for k := 0; k < n; k++ {
-		if rapid.IntRange(0, 4).Draw(t, "wk") == 0 {
+		if rapid.IntRange(0, 4).Draw(t, "wk") == 0 || (c.HookInRead && rapid.Bool().Draw(t, "wk2")) {
 			c.Writes = append(c.Writes, c06GWrite{Op: "setlimit", Limit: rapid.SampledFrom([]uint32{0, 1, 4, 16, 3072, 1 << 16}).Draw(t, "lim")})
 			continue
 		}
@@ -594,6 +596,16 @@ func c06GatedGen(t *rapid.T) c06Gated {
 		if len(body) > 800 {
 			body = body[:800]
 		}
+	}
+	c.InitLimit = rapid.SampledFrom([]uint32{defaultLimit, defaultLimit, 0, 8, 40, 200}).Draw(t, "initlimit")
+	if rapid.IntRange(0, 3).Draw(t, "long") == 0 {
+		// longer than the small limits: truncated and whole mode give different answers
+		body = []byte(rapid.SampledFrom([]string{
+			`{"type":"Feature","properties":{"name":"` + strings.Repeat("x", 300) + `"}}`,
+			"a,b,c\n" + strings.Repeat("1,2,3\n", 60) + "4,5",
+			strings.Repeat("{\"k\":1}\n", 50) + "{\"k\":",
+			"[" + strings.Repeat("1,", 200) + "1]",
+		}).Draw(t, "longbody"))
 	}
 	if rapid.IntRange(0, 5).Draw(t, "notag") == 0 {
 		c.Input = body
